@@ -184,6 +184,9 @@ def reject_case(rep):
     d.pop('space_transfer_class')
     rep.side('multi-level-without-space-transfer', _raises(lambda: mk(d), (ParameterError,)) is True)
     rep.side('unknown-predictor', _raises(lambda: run(base(2), 2, {'predict_type': 'nonsense'}), (ControllerError,)) is True)
+    for bad in ('', False, 0, 'FINE_ONLY', 'fmg_'):  # unknown values of other shapes: empty, falsy, wrong case
+        for NP in (1, 2):
+            rep.side(f'unknown-predictor/{bad!r}/NP{NP}', _raises(lambda: run(base(2), NP, {'predict_type': bad}), (ControllerError, NotImplementedError)) is True)
     d = base()
     d['level_params']['residual_type'] = 'nonsense'
     rep.side('unknown-residual-type', _raises(lambda: run(d), (ParameterError,)) is True)
